@@ -53,10 +53,27 @@ func sortQueuesByPriority(queues []*Queue) {
 	})
 }
 
+type queueWithFairMax struct {
+	queue   *Queue
+	fairMax *resources.Resource
+}
+
+// sortQueuesPaired sorts the queues together with their fair max, so that the less function always sees the fair max of the queue it compares
+func sortQueuesPaired(queues []*Queue, fairMaxResources []*resources.Resource, less func(l, r *Queue, lMax, rMax *resources.Resource) bool) {
+	pairs := make([]queueWithFairMax, len(queues))
+	for i := range queues {
+		pairs[i] = queueWithFairMax{queues[i], fairMaxResources[i]}
+	}
+	sort.SliceStable(pairs, func(i, j int) bool {
+		return less(pairs[i].queue, pairs[j].queue, pairs[i].fairMax, pairs[j].fairMax)
+	})
+	for i := range pairs {
+		queues[i], fairMaxResources[i] = pairs[i].queue, pairs[i].fairMax
+	}
+}
+
 func sortQueuesByPriorityAndFairness(queues []*Queue, fairMaxResources []*resources.Resource) {
-	sort.SliceStable(queues, func(i, j int) bool {
-		l := queues[i]
-		r := queues[j]
+	sortQueuesPaired(queues, fairMaxResources, func(l, r *Queue, lMax, rMax *resources.Resource) bool {
 		lPriority := l.GetCurrentPriority()
 		rPriority := r.GetCurrentPriority()
 		if lPriority > rPriority {
@@ -66,8 +83,8 @@ func sortQueuesByPriorityAndFairness(queues []*Queue, fairMaxResources []*resour
 			return false
 		}
 
-		comp := resources.CompUsageRatioSeparately(l.GetAllocatedResource(), l.GetGuaranteedResource(), fairMaxResources[i],
-			r.GetAllocatedResource(), r.GetGuaranteedResource(), fairMaxResources[j])
+		comp := resources.CompUsageRatioSeparately(l.GetAllocatedResource(), l.GetGuaranteedResource(), lMax,
+			r.GetAllocatedResource(), r.GetGuaranteedResource(), rMax)
 
 		if comp == 0 {
 			return resources.StrictlyGreaterThan(resources.Sub(l.GetPendingResource(), r.GetPendingResource()), resources.Zero)
@@ -77,12 +94,10 @@ func sortQueuesByPriorityAndFairness(queues []*Queue, fairMaxResources []*resour
 }
 
 func sortQueuesByFairnessAndPriority(queues []*Queue, fairMaxResources []*resources.Resource) {
-	sort.SliceStable(queues, func(i, j int) bool {
-		l := queues[i]
-		r := queues[j]
+	sortQueuesPaired(queues, fairMaxResources, func(l, r *Queue, lMax, rMax *resources.Resource) bool {
 
-		comp := resources.CompUsageRatioSeparately(l.GetAllocatedResource(), l.GetGuaranteedResource(), fairMaxResources[i],
-			r.GetAllocatedResource(), r.GetGuaranteedResource(), fairMaxResources[j])
+		comp := resources.CompUsageRatioSeparately(l.GetAllocatedResource(), l.GetGuaranteedResource(), lMax,
+			r.GetAllocatedResource(), r.GetGuaranteedResource(), rMax)
 		if comp == 0 {
 			lPriority := l.GetCurrentPriority()
 			rPriority := r.GetCurrentPriority()
